@@ -2,10 +2,12 @@
 # MANIFEST.setup_cmd: build the framework from files on disk only (offline).
 set -e
 cd "$(dirname "$0")"
-export CARGO_NET_OFFLINE=true CARGO_TARGET_DIR=/verif/target RUSTFLAGS="--cfg parol_verif"
-python3 tools/gen_consts.py 2>/dev/null || true
+export CARGO_NET_OFFLINE=true RUSTFLAGS="--cfg parol_verif"
+mkdir -p work
+cp -f /repo/Cargo.lock harness/Cargo.lock
+( cd harness && CARGO_TARGET_DIR=/verif/target cargo build --offline )
+python3 tools/gen_consts.py
 ( cd coq && coq_makefile -f _CoqProject -o Makefile && timeout 3000 make -j16 )
 ( cd ocaml && ./build.sh )
-cp -f /repo/Cargo.lock harness/Cargo.lock
-( cd harness && cargo build --offline )
+( cd /repo && CARGO_TARGET_DIR=/verif/target/ls cargo build -p parol-ls --offline )
 echo setup done
